@@ -466,6 +466,11 @@ def thread_dict(d, max_region=16):
         # definitions with a known value are threaded to the arm they must take; the others keep the original switch
         if not any(v is not None and v[0] == kind for v in vals):
             continue
+        if not all(v is not None and v[0] == kind for v in vals):
+            # a mix of known and unknown definitions: only for values that come out of spliced code (a closure / helper body that was written
+            # into this function); a flag that the function itself folds a verdict into is left alone - the rules read such flags as written
+            if not all(blocks[b2].get('from_body') for (b2, _k2, _s2) in xdefs):
+                continue
         defblocks = {bb for bb, _, _ in xdefs}
         if T in defblocks:
             continue
@@ -761,7 +766,7 @@ def desugar_dict(F, d, flat_cache=None):
             return len(L) - 1
 
         def new_block(stmts, term):
-            B.append({'cleanup': False, 'stmts': stmts, 'term': term, 'tln': ln, 'synth': True})
+            B.append({'cleanup': False, 'stmts': stmts, 'term': term, 'tln': ln, 'synth': True, 'from_body': '<synthesised>'})
             return len(B) - 1
 
         def assign(l, rv):
@@ -966,7 +971,7 @@ def desugar_combinators_dict(F, d):
                 resid = len(L) - 1
 
                 def mk(stmts, term):
-                    B.append({'cleanup': False, 'stmts': stmts, 'term': term, 'tln': ln, 'synth': True})
+                    B.append({'cleanup': False, 'stmts': stmts, 'term': term, 'tln': ln, 'synth': True, 'from_body': '<synthesised>'})
                     return len(B) - 1
 
                 def asg(l, rv):
@@ -1001,7 +1006,7 @@ def desugar_combinators_dict(F, d):
             T_, dl_ = t['t'], t['dest']['l']
 
             def mk2(stmts, term):
-                B.append({'cleanup': False, 'stmts': stmts, 'term': term, 'tln': ln, 'synth': True})
+                B.append({'cleanup': False, 'stmts': stmts, 'term': term, 'tln': ln, 'synth': True, 'from_body': '<synthesised>'})
                 return len(B) - 1
 
             def asg2(l, rv):
@@ -1076,7 +1081,7 @@ def desugar_combinators_dict(F, d):
             return len(L) - 1
 
         def new_block(stmts, term):
-            B.append({'cleanup': False, 'stmts': stmts, 'term': term, 'tln': ln, 'synth': True})
+            B.append({'cleanup': False, 'stmts': stmts, 'term': term, 'tln': ln, 'synth': True, 'from_body': '<synthesised>'})
             return len(B) - 1
 
         def assign(l, rv):
